@@ -100,7 +100,8 @@ Record resp := mkResp {
   rloc : loch; rkeymsg : bool; (* status message is "key management failure" *)
   rdesc : option descr; rth : option transp }.
 
-Inductive event := EvResp (r : resp) | EvOptReq | EvBadReq | EvFrame | EvClose | EvStale.
+(* [EvGap q]: nothing arrives for q quarters of ReadTimeout; every other event takes no time *)
+Inductive event := EvResp (r : resp) | EvOptReq | EvBadReq | EvFrame | EvClose | EvStale | EvGap (q : N).
 Definition action := (N * list event)%type.     (* method the server read, what it sent back *)
 Definition script := list action.
 
@@ -175,17 +176,34 @@ Definition pop (m : N) (w : W) : W * list event :=
   | (m', evs) :: t => (mkW (wst w) t (wsent w + 1) (wdesync w || negb (m' =? m)), evs)
   end.
 
-(* client.go:891-924 waitResponse. [lost]: the reader goroutine has ended (c.reader = nil) *)
+(* client.go waitResponse. [lost]: the reader goroutine has ended (c.reader = nil).
+   The timer is created ONCE, before the loop (t := time.NewTimer(c.ReadTimeout)): the deadline is relative to
+   the start of the wait. [budget] is what is left of it, in quarters of ReadTimeout; messages that are not
+   the awaited response (stale responses, server requests, frames) are consumed without moving the deadline,
+   so a server that keeps talking without ever answering cannot keep the call waiting. *)
+Definition wait_quarters : N := 4.
 Inductive waitres := WResp (r : resp) | WErr (e : N) (lost : bool).
-Fixpoint wait (frames : bool) (evs : list event) : waitres :=
+Fixpoint wait (frames : bool) (budget : N) (evs : list event) : waitres :=
   match evs with
-  | [] => WErr eTimeout false                      (* <-t.C *)
+  | [] => WErr eTimeout false                      (* silence: <-t.C *)
+  | EvGap q :: t => if budget <=? q then WErr eTimeout false       (* <-t.C fires during the gap *)
+                    else wait frames (budget - q) t
   | EvResp r :: _ => WResp r                      (* CSeq absent, repeated or equal to the request's *)
-  | EvStale :: t => wait frames t                 (* a response with another CSeq is dropped *)
-  | EvOptReq :: t => wait frames t                (* handleServerRequest answers OPTIONS *)
+  | EvStale :: t => wait frames budget t          (* a response with another CSeq is dropped *)
+  | EvOptReq :: t => wait frames budget t         (* handleServerRequest answers OPTIONS *)
   | EvBadReq :: _ => WErr eUnhandled false        (* ErrClientUnhandledMethod *)
-  | EvFrame :: t => if frames then wait frames t else WErr eFrame true   (* client_reader.go:73-79 *)
+  | EvFrame :: t => if frames then wait frames budget t else WErr eFrame true   (* client_reader.go *)
   | EvClose :: _ => WErr eConn true               (* chReadError *)
+  end.
+
+(* how long that wait lasts, in quarters of ReadTimeout *)
+Fixpoint wait_time (frames : bool) (budget : N) (evs : list event) : N :=
+  match evs with
+  | [] => budget
+  | EvGap q :: t => if budget <=? q then budget else q + wait_time frames (budget - q) t
+  | EvStale :: t | EvOptReq :: t => wait_time frames budget t
+  | EvFrame :: t => if frames then wait_time frames budget t else 0
+  | _ => 0
   end.
 
 (* client.go:1243-1315: one round of do, without the OPTIONS pre-step and without the retry *)
@@ -198,7 +216,7 @@ Definition do1 (cfg : config) (m : N) (urlnil skip : bool) (w : W) : W * d1 :=
   let '(w1, evs) := if m =? mTeardown then (w, []) else pop m w in
   if skip then (w1, D1Skip) else
   if st_ctx s then (upd (set_mustclose true) w1, D1Err eTerminated) else
-  match wait (st_frames s) evs with
+  match wait (st_frames s) wait_quarters evs with
   | WErr e lost =>
       (upd (fun s' => set_mustclose true (set_reader (st_reader s' && negb lost) s')) w1, D1Err e)
   | WResp r =>
@@ -782,6 +800,7 @@ Fixpoint dec_events (fuel : list N) (l : list N) : option (list event) :=
     | 4 :: t => option_map (cons EvFrame) (dec_events fuel' t)
     | 5 :: t => option_map (cons EvClose) (dec_events fuel' t)
     | 6 :: t => option_map (cons EvStale) (dec_events fuel' t)
+    | 7 :: q :: t => option_map (cons (EvGap q)) (dec_events fuel' t)
     | _ => None
     end
   end.
